@@ -36,6 +36,7 @@ func init() {
 			return nil
 		},
 		"vfExecLog":    vfExecLog,
+		"vfExecReset":  vfExecResetI,
 		"vfWritten":    vfWritten,
 		"vfExecSet":    vfExecSet,
 		"vfTerminates": vfTerminates,
